@@ -31,17 +31,20 @@ struct Access {
     bool flexible = false; int bufkind = 0;     // flexible API: layout of the user buffer datatype
     int invalid = INV_NONE;
     int reqslot = -1;              // nonblocking: slot in the rank's request table
+    int erange = -1;               // >= 0: one element (index erange modulo the request length) gets a value outside the range of a 16-bit external type (applied by the annotator when the memory type can hold it)
     int vrank = -1;                // rank number used to derive the written values (-1 = the executing rank); lets C10 re-map a program onto other ranks with identical data
     // ---- filled by the annotator (never serialised as input)
     int exp_rc = 0; bool rc_any = false;  // expected return code / any error code acceptable
     std::vector<long long> values;        // put: values to write; get: expected values (selection order)
     std::vector<uint8_t> estate;          // get: per element 0 = compare value, 1 = expect fill, 2 = don't care
+    int erange_k = -1;                    // resolved index of the out-of-range element (-1: none)
     std::vector<long long> elems;         // linear element indices within the variable (record-major) in selection order
 };
 
 struct WaitSpec {                 // per rank
     bool active = true;
-    int mode = 0;                 // 0 explicit list, 1 NC_REQ_ALL, 2 NC_GET_REQ_ALL, 3 NC_PUT_REQ_ALL
+    int mode = 0;                 // 0 explicit list, 1 NC_REQ_ALL, 2 NC_GET_REQ_ALL, 3 NC_PUT_REQ_ALL, 4 explicit list of every pending request (puts in posting order, then gets; slots filled by the annotator)
+    bool nostatus = false;        // pass a NULL status array
     std::vector<int> slots;       // request slots (may contain -1 => NC_REQ_NULL, -2 => unknown id)
     // annotator:
     std::vector<int> exp_status; int exp_rc = 0;
